@@ -31,6 +31,7 @@ META = {
     "Third-party code handed caller data (json.dumps, babel) is assumed not to mutate it.",
 }
 META["technique"] += '; scope-stack ownership and push/pop pairing (shared with C07)'
+META["technique"] += "; hand-through of the loader's matter mapping (BaseLoader.load, ChoiceLoader pass-through)"
 META["level_text"] += ' Also decided (R4): the order cannot be disturbed at run time - block scopes are pushed/popped only by RenderContext.extend, in try/finally.'
 
 COPYING_CALLS = {"list", "dict", "set", "tuple", "sorted", "frozenset", "deque", "defaultdict", "OrderedDict", "bytearray", "deepcopy", "copy", "reversed", "str", "bytes", "int", "float", "Decimal", "chain", "islice", "zip", "enumerate", "map", "filter", "iter", "range", "partial"}
@@ -403,6 +404,12 @@ def run(prog: Program, res: Result) -> None:  # noqa: PLR0912, PLR0915
     from checks.shared import check_no_text_normalisation
 
     check_no_text_normalisation(prog, res, "C10.R7")
+    res.rule("C10.R8", "the loader's matter mapping reaches the template as it was returned, and reaches it at all: BaseLoader.load[_async] passes `matter` from get_source() to from_string(overlay_data=…) without rewriting it or handing it to a helper (it is the caller's dict, held by reference), and ChoiceLoader.get_source[_async] returns the delegate's TemplateSource itself (a rebuilt tuple drops the matter layer of the lookup precedence)")
+    from checks.shared import check_choice_loader_passthrough
+    from checks.shared import check_load_hands_through
+
+    check_load_hands_through(prog, res, "C10.R8", "matter")
+    check_choice_loader_passthrough(prog, res, "C10.R8")
 
 
 def _param_or_empty_default(e: ast.AST, param: str) -> bool:
